@@ -36,6 +36,10 @@ type mapEnv struct {
 	L       uint
 	climit  uint32
 	shadow  map[hx.TV]hx.TV
+	// insSeq: when each key now in the map was INSERTED (not overwritten): fully colliding keys must be enumerated in
+	// that order (C13).  A key without an entry (restored by a crash) is not judged.
+	insSeq  map[hx.TV]uint64
+	insCtr  uint64
 	keyUniv []hx.TV
 	nextPay uint64
 	prog    int
@@ -219,6 +223,7 @@ func runMapProgram(e *mapEnv, nOps, mode, valProf, opProf int) {
 	e.addr = hx.MkAddr(uint64(1 + e.rng.Intn(3)))
 	e.ty = hx.TI(uint64(e.rng.Intn(100)))
 	e.shadow = map[hx.TV]hx.TV{}
+	e.insSeq = map[hx.TV]uint64{}
 	e.climit = 255
 	salt := uint64(e.rng.Int63())
 	// digest modes: 0 real; 1 collisions at level 0 only; 2 at deeper levels too; 3 all levels tiny
@@ -416,6 +421,10 @@ func runMapProgram(e *mapEnv, nOps, mode, valProf, opProf int) {
 						e.violation("C02", fmt.Sprintf("set(%v) returned previous value %v, dictionary has %v (present=%v)", k, tv, e.shadow[k], present))
 					}
 				}
+				if !present {
+					e.insCtr++
+					e.insSeq[k] = e.insCtr
+				}
 				e.shadow[k] = v
 			}
 			e.emitEffects()
@@ -455,6 +464,7 @@ func runMapProgram(e *mapEnv, nOps, mode, valProf, opProf int) {
 					e.violation("C02", fmt.Sprintf("remove(%v) returned key %v", k, ks))
 				}
 				delete(e.shadow, k)
+				delete(e.insSeq, k)
 			}
 			e.emitEffects()
 			if err != nil {
@@ -489,6 +499,7 @@ func runMapProgram(e *mapEnv, nOps, mode, valProf, opProf int) {
 					}
 				}
 				e.shadow = map[hx.TV]hx.TV{}
+				e.insSeq = map[hx.TV]uint64{}
 			}
 			e.emitEffects()
 			for _, p := range got {
@@ -644,6 +655,22 @@ func (e *mapEnv) iterate(q int) {
 	}) {
 		e.violation("C13", mode+" iteration is not in ascending digest order")
 	}
+	// keys whose digests agree on EVERY level come out in the order in which they were inserted
+	for i := 1; i < len(got); i++ {
+		same := len(digs[i]) == len(digs[i-1])
+		for l := 0; same && l < len(digs[i]); l++ {
+			same = digs[i][l] == digs[i-1][l]
+		}
+		a, okA := e.insSeq[got[i-1].k]
+		b, okB := e.insSeq[got[i].k]
+		if same && okA && okB && a > b {
+			e.st.Hit("iter:full-collision-pair")
+			e.violation("C13", fmt.Sprintf("%s iteration: keys %v and %v collide on every digest level but come out in the reverse of their insertion order", mode, got[i-1].k, got[i].k))
+			return
+		} else if same && okA && okB {
+			e.st.Hit("iter:full-collision-pair")
+		}
+	}
 }
 
 // persistStep: commit / crash / reload for maps (see arrEnv.persistStep).
@@ -710,6 +737,7 @@ func (e *mapEnv) persistStep() bool {
 		}
 		e.m = m
 		e.shadow = map[hx.TV]hx.TV{}
+		e.insSeq = map[hx.TV]uint64{} // insertion times of the restored keys are not tracked: only later insertions are judged
 		for k, v := range e.committed {
 			e.shadow[k] = v
 		}
